@@ -24,4 +24,5 @@ import Mahotas.Proofs.CScalarTies.PosToFlat
 import Mahotas.Proofs.CScalarTies.FlatToPos
 import Mahotas.Proofs.CScalarTies.Surf
 import Mahotas.Proofs.CScalarTies.Lbp
-
+import Mahotas.Proofs.CScalarTies.Find2d
+import Mahotas.Proofs.CScalarTies.Find2dAcc
